@@ -268,10 +268,10 @@ fn top_level_information_object_declaration(
     into((
         skip_ws(many0(comment)),
         skip_ws(context_boundary(identifier)),
-        skip_ws(opt(parameterization)),
+        skip_ws_and_comments(opt(parameterization)),
         // the governing class is named by an object class reference: a reserved word such as `REAL`
         // is a built-in type, which makes the assignment a value assignment
-        skip_ws(verify(uppercase_identifier, |class: &str| {
+        skip_ws_and_comments(verify(uppercase_identifier, |class: &str| {
             !ASN1_KEYWORDS.contains(&class) || [ABSTRACT_SYNTAX, TYPE_IDENTIFIER].contains(&class)
         })),
         preceded(assignment, information_object),
@@ -285,8 +285,8 @@ fn top_level_object_set_declaration(
     into((
         skip_ws(many0(comment)),
         skip_ws(context_boundary(identifier)),
-        skip_ws(opt(parameterization)),
-        skip_ws(uppercase_identifier),
+        skip_ws_and_comments(opt(parameterization)),
+        skip_ws_and_comments(uppercase_identifier),
         preceded(assignment, object_set),
     ))
     .parse(input)
